@@ -27,14 +27,14 @@ fn gen_ddesc(shape: &Shape, cfg: &Config, rng: &mut Rng, top: bool, tag: u32) ->
     match shape {
         Shape::Set => match rng.below(100) {
             0..=39 => DDesc::SetAdd { m },
-            40..=49 => {
+            40..=49 if !cfg.misuse => {
                 let mut ms: Vec<u8> = (0..cfg.nmembers.max(2)).filter(|_| rng.chance(2, 3)).collect();
                 if ms.len() < 2 {
                     ms = vec![0, 1];
                 }
                 DDesc::SetAddAll { ms }
             }
-            50..=84 => DDesc::SetRm { m },
+            40..=84 => DDesc::SetRm { m },
             _ => {
                 if top {
                     let mut ms: Vec<u8> = (0..cfg.nmembers.max(1)).filter(|_| rng.chance(2, 3)).collect();
